@@ -566,7 +566,11 @@ class Visitor:
         except (LastNodeError, AttributeError):
             docstring = None
 
+        own_labels, own_docstring, own_annotation = labels, docstring, annotation
         for name in names:
+            # What is forwarded from a previous definition of one name must not leak to the other names (`a = b = 0`).
+            labels, docstring, annotation = set(own_labels), own_docstring, own_annotation
+
             # TODO: Handle assigns like `x.y = z`.
             # We need to resolve `x.y` and add `z` in its members.
             if "." in name:
